@@ -108,9 +108,11 @@ def gen_settings(rng, grid: bool) -> Dict[str, Any]:
     return s
 
 
-def gen_problem(rng, i: int, grid: bool = True, allow_start_symbol: bool = True) -> Dict[str, Any]:
-    """one (grammar, constraint, settings) problem; about a third from the fixed list"""
+def gen_problem(rng, i: int, grid: bool = True, allow_start_symbol: bool = True, force_start_symbol: bool = False) -> Dict[str, Any]:
+    """one (grammar, constraint, settings) problem; about a third from the fixed list (never with force_start_symbol)"""
     r = rng.random()
+    if force_start_symbol:
+        r = 0.3 + 0.7 * r
     settings = gen_settings(rng, grid)
     if r < 0.3:
         g, text = rng.choice(FIXED)
@@ -125,7 +127,7 @@ def gen_problem(rng, i: int, grid: bool = True, allow_start_symbol: bool = True)
     c = G.canon(g)
     start_symbol = None
     root = "<start>"
-    if allow_start_symbol and gname != "random" and rng.random() < 0.2:
+    if (allow_start_symbol and gname != "random" and rng.random() < 0.2) or force_start_symbol:
         root = rng.choice([k for k in g if k != "<start>" and any(G.is_nt(s) for alt in c[k] for s in alt)] or ["<start>"])
         start_symbol = None if root == "<start>" else root
     trees = [T.gen_tree(rng, c, root, rng.randint(2, 6), T.IdGen()) for _ in range(4)]
